@@ -60,10 +60,20 @@ func TestCheck(t *testing.T) {
 	r.Meta("rule", "every request carries a unique id (caller, sequence number) and every response is a function of that id, so a response handed to the wrong caller is visible. (A) real client <-> real service over one client on tcp, unix, udp, ws, ws-fasthttp (and http, fasthttp, mock for comparison): {2, 8, 64} concurrent callers x proxy Invoke and raw Request, service-side delays drawn per id so that completion order differs from issue order, worker pool absent / present; the number of distinct server-side connections is recorded. (B) real client <-> scripted raw server (tcp, unix, udp, ws): the server withholds the answers of K in {1,2,5,16,64} concurrent calls and releases them in order / reversed / evens-then-odds / PRNG permutation, preceded, interleaved and followed by stray identifiers (never issued, and already answered) and duplicated answers with a different body; afterwards a second round on the same connection. (C) udp identifier wrap-around: more than 2^15 calls on one connection, with calls kept pending across the wrap. (D) reverse calls from a service to {1,3} providers with {2,16} concurrent callers each. Oracle: every caller gets exactly the answer derived from its own id; a caller whose call is still pending at the end of the case is a violation. distinct_nontrivial = distinct (part, transport, parameters) cells")
 	r.Meta("assumptions", []string{"up to 64 concurrent callers per client", "udp: fewer than 2^15 calls are pending at once on one connection"})
 	callers := []int{2, 8, 64}
+	scripted := []int{1, 2, 5, 16, 64}
+	orders := []string{"in-order", "reversed", "evens-odds", "random"}
+	if !r.Quick() {
+		callers = []int{2, 3, 8, 64, 200}
+		scripted = []int{1, 2, 3, 5, 16, 64, 200}
+		orders = []string{"in-order", "reversed", "evens-odds", "random", "random-2", "random-3", "random-4"}
+	}
 	for _, kind := range peer.Kinds {
 		kind := kind
 		for _, n := range callers {
 			n := n
+			if kind == "udp" && n > 64 {
+				continue // bursts beyond the socket buffers lose datagrams, which is udp, not the property
+			}
 			for _, usePool := range []bool{false, true} {
 				usePool := usePool
 				if usePool && (kind == "mock" || kind == "http" || kind == "fasthttp") {
@@ -75,9 +85,12 @@ func TestCheck(t *testing.T) {
 	}
 	for _, kind := range []string{"tcp", "unix", "udp", "ws"} {
 		kind := kind
-		for _, k := range []int{1, 2, 5, 16, 64} {
+		for _, k := range scripted {
 			k := k
-			for _, order := range []string{"in-order", "reversed", "evens-odds", "random"} {
+			if kind == "udp" && k > 64 {
+				continue
+			}
+			for _, order := range orders {
 				order := order
 				if k == 1 && order != "in-order" {
 					continue
@@ -154,9 +167,9 @@ func realCase(c *h.Case, kind string, n int, usePool bool) {
 	client := srv.NewClient()
 	defer client.Abort()
 	client.Timeout = 30 * time.Second
-	rounds := 40
+	rounds := r.Pick(40, 160)
 	if n >= 64 {
-		rounds = 12
+		rounds = r.Pick(12, 40)
 	}
 	if light {
 		rounds /= 4
@@ -292,7 +305,7 @@ func permutation(order string, k int, rng *rand.Rand) []int {
 			q = append(q, i)
 		}
 		p = q
-	case "random":
+	case "random", "random-2", "random-3", "random-4":
 		rng.Shuffle(k, func(i, j int) { p[i], p[j] = p[j], p[i] })
 	}
 	return p
@@ -357,7 +370,7 @@ func scriptedCase(c *h.Case, kind string, k int, order string) {
 			if n%4 == 1 {
 				srv.Reply(q.Conn, stray(), []byte("STRAY-INTERLEAVED"), false)
 			}
-			if order == "random" && rng.Intn(4) == 0 {
+			if strings.HasPrefix(order, "random") && rng.Intn(4) == 0 {
 				time.Sleep(time.Duration(rng.Intn(300)) * time.Microsecond)
 			}
 		}
@@ -567,7 +580,7 @@ func reverseCase(c *h.Case, kind string, providers, n int) {
 			return
 		}
 	}
-	rounds := 25
+	rounds := r.Pick(25, 100)
 	if light {
 		rounds = 8
 	}
